@@ -55,11 +55,17 @@ let nats_of_csv (s : string) : nat list =
 
 let bodies = Array.of_list prims_all
 let opc = ref 0
+(* opcode -> which penalty function the symbol overrides (6th field of a P token: z c4 e12) *)
+let pens : (int, pen_kind) Hashtbl.t = Hashtbl.create 64
+let pen_of s = match s with "c4" -> PenCmp4 | "e12" -> PenEq12 | _ -> PenZero
 
 let parse_sym (tok : string) : sym =
   incr opc;
   let o = z_of_int !opc in
   match String.split_on_char '/' tok with
+  | ["P"; idx; cat; acs; par; pen] ->
+      Hashtbl.replace pens !opc (pen_of pen);
+      prim_sym lm o bodies.(int_of_string idx) (nat_of_int (int_of_string cat)) (nats_of_csv acs) (par = "1")
   | ["P"; idx; cat; acs; par] ->
       prim_sym lm o bodies.(int_of_string idx) (nat_of_int (int_of_string cat)) (nats_of_csv acs) (par = "1")
   | ["V"; id; cat] -> variable_sym o (nat_of_int (int_of_string id)) (nat_of_int (int_of_string cat))
@@ -98,6 +104,7 @@ let do_case (w : string list) : string =
   let buf = Buffer.create 256 in
   Buffer.add_string buf (if wf_genome_b g then "W 1" else "W 0");
   let st_s = ref (init_state g) and st_b = ref (init_state g) and st_l = ref (init_state g) in
+  let team_states : (string, state list) Hashtbl.t = Hashtbl.create 4 in
   let nruns = nexti () in
   for _ = 1 to nruns do
     let mode = next () in
@@ -106,6 +113,24 @@ let do_case (w : string list) : string =
     let nvals = nexti () in
     let ex = List.init nvals (fun _ -> parse_value (next ())) in
     let l = mkloc li lc in
+    if mode = "p" then begin
+      let pk z = match Hashtbl.find_opt pens (int_of_z z) with Some k -> k | None -> PenZero in
+      let (r, st2) = penalty_locus g pk l !st_s in
+      st_s := st2;
+      Buffer.add_string buf (Printf.sprintf " | R %s D - S %s A -"
+        (match r with Some z -> "p:" ^ dec_of_z z | None -> "p:UB") (show_state g st2))
+    end else if String.length mode > 2 && String.sub mode 0 2 = "T:" then begin
+      let loci = List.map (fun m -> match String.split_on_char ',' m with
+                                    | [i; c] -> mkloc (int_of_string i) (int_of_string c)
+                                    | _ -> failwith "team locus")
+                   (String.split_on_char ';' (String.sub mode 2 (String.length mode - 2))) in
+      let gs = List.map (fun l -> { g with best = l }) loci in
+      let sts = match Hashtbl.find_opt team_states mode with
+                | Some s -> s | None -> List.map init_state gs in
+      let (r, sts') = team_run (List.combine gs sts) ex in
+      Hashtbl.replace team_states mode sts';
+      Buffer.add_string buf (Printf.sprintf " | R %s D - S - A -" (show_result r))
+    end else begin
     let src = not (mode = "b" || mode = "B") in
     let entry = if mode = "k" || mode = "l" then l else g.best in
     (* C: the lambda object is replaced by a copy, whose interpreter is new *)
@@ -128,6 +153,7 @@ let do_case (w : string list) : string =
       else ("-", "-") in
     let s = match persistent with Some _ -> show_state g st2 | None -> "-" in
     Buffer.add_string buf (Printf.sprintf " | R %s D %s S %s A %s" (show_result r) d s a)
+    end
   done;
   Buffer.contents buf
 
